@@ -199,7 +199,8 @@ class VSocket(object):
         self.sched = net.sched
         self.session = None
         self.closed = False
-        self.shut = False
+        self.shut_rd = False     # shutdown(SHUT_RD / SHUT_RDWR): reads see end of stream, a blocked reader wakes up
+        self.shut_wr = False     # shutdown(SHUT_WR / SHUT_RDWR): the peer sees end of stream, sends fail
         self.connected = False
         net._sock_count = getattr(net, '_sock_count', 0) + 1
         self.sid = net._sock_count
@@ -244,7 +245,7 @@ class VSocket(object):
             s.log('send_fail', sock=self.sid, why='closed')
             raise OSError(errno.EBADF, 'Bad file descriptor')
         sess = self.session
-        if sess is None or self.shut or sess.srv_reset or (sess.srv_closed and not sess.send_after_close_ok):
+        if sess is None or self.shut_wr or sess.srv_reset or (sess.srv_closed and not sess.send_after_close_ok):
             s.log('send_fail', sock=self.sid, why='pipe')
             raise BrokenPipeError(errno.EPIPE, 'Broken pipe')
         lock = getattr(self.net, 'write_lock', None)
@@ -271,8 +272,11 @@ class VSocket(object):
         if not self.connected:
             s.log('shutdown', sock=self.sid, result='ENOTCONN')
             raise OSError(errno.ENOTCONN, 'Transport endpoint is not connected')
-        self.shut = True
-        if self.session is not None and not self.session.cli_shut:
+        if how in (_real_socket.SHUT_RD, _real_socket.SHUT_RDWR):
+            self.shut_rd = True
+        if how in (_real_socket.SHUT_WR, _real_socket.SHUT_RDWR):
+            self.shut_wr = True
+        if self.shut_wr and self.session is not None and not self.session.cli_shut:
             self.session.cli_shut = True
             if hasattr(self.session.script, 'on_client_close'):
                 self.session.script.on_client_close(self.session)
@@ -319,7 +323,9 @@ class VFile(object):
     def _readable(self):
         sk = self.sock
         sess = sk.session
-        if self.closed or sk.shut:
+        # as with a real socket, closing the descriptor from another thread does not wake a reader that is already
+        # blocked: only data, the peer's end of stream / reset, or a local shutdown of the read half do
+        if sk.shut_rd:
             return True
         if sess is None:
             return True
@@ -338,15 +344,22 @@ class VFile(object):
             s.yield_point()
             s.log('read', sock=self.sock.sid, want=0, got=0)
             return b''
-        s.yield_point(blocked_on=self._readable)
-        if self.closed:
+        me = s.me()
+        if me is not None:
+            me.waiting_read = True
+        try:
+            s.yield_point(blocked_on=self._readable)
+        finally:
+            if me is not None:
+                me.waiting_read = False
+        if self.closed and not self.sock.shut_rd:
             s.log('read', sock=self.sock.sid, want=n, got=-1, why='closed')
             raise ValueError('I/O operation on closed file')
         sess = self.sock.session
-        if sess is not None and sess.srv_reset and not self.sock.shut:
+        if sess is not None and sess.srv_reset and not self.sock.shut_rd:
             s.log('read', sock=self.sock.sid, want=n, got=-1, why='reset')
             raise ConnectionResetError(errno.ECONNRESET, 'Connection reset by peer')
-        if sess is None or self.sock.shut or len(sess.s2c) == 0:
+        if sess is None or self.sock.shut_rd or len(sess.s2c) == 0:
             self.empty_reads += 1
             s.log('read', sock=self.sock.sid, want=n, got=0, empties=self.empty_reads)
             if self.empty_reads > 50:
@@ -389,6 +402,8 @@ class VSocketModule(object):
     AF_INET6 = _real_socket.AF_INET6
     SOCK_STREAM = _real_socket.SOCK_STREAM
     SHUT_RDWR = _real_socket.SHUT_RDWR
+    SHUT_RD = _real_socket.SHUT_RD
+    SHUT_WR = _real_socket.SHUT_WR
     error = OSError
     timeout = _real_socket.timeout
     gaierror = _real_socket.gaierror
